@@ -226,10 +226,8 @@ where
 
     #[track_caller]
     fn iter_unkeyed(self) -> StoreFieldIter<Inner, Prev> {
-        // reactively track changes to this field
-        let trigger = self.get_trigger(self.path().into_iter().collect());
-        trigger.this.track();
-        trigger.children.track();
+        // reactively track changes to this field (and writes made directly to its ancestors)
+        self.track_field();
 
         // get the current length of the field by accessing slice
         let len = self.reader().map(|n| n.len()).unwrap_or(0);
